@@ -104,6 +104,8 @@ func runC11(c *eng.Ctx) {
 			"(*weed/topology.VolumeLayout).ToMap": "status-page snapshot (unlocked read of writables): not on the write-offer / lookup paths C11 speaks about",
 		},
 	})
+	c.CheckLockPairs("PAIR-accessLock", "weed/topology", "VolumeLayout.accessLock", nil)
+	c.Expect("PAIR-accessLock", 18)
 	c.Expect("LOCK-accessLock", 10)
 
 	// (3) re-evaluation after location-list changes
